@@ -338,3 +338,6 @@ def run(ctx):
     if not getattr(ctx, "nested", False):
         from rules import C16 as _c16p, shared as _shp
         _c16p.run(_shp.Proxy(ctx, ("C16-a",), "C19-b"))
+        # the stream type and session id of a uni stream are read by poll_next_varint: complete-before-decode over ALL buffered chunks (C04-f)
+        from rules import C04 as _c04p
+        _c04p.run(_shp.Proxy(ctx, ("C04-f", "C04-e"), "C19-b", only=("poll_next_varint",)))
